@@ -34,8 +34,11 @@ def extra_cases(rs):
     out = []
 
     def add(A, alpha, **kw):
-        out.append(dict({'routine': ROUTINE, 'A': np.asarray(A, dtype=float).tolist(), 'itr': 1, 'alpha': float(alpha),
-                         'seed': int(rs.randint(2 ** 31))}, **kw))
+        c = dict({'routine': ROUTINE, 'A': np.asarray(A, dtype=float).tolist(), 'itr': 1, 'alpha': float(alpha),
+                  'seed': int(rs.randint(2 ** 31))}, **kw)
+        if rs.rand() < .5:
+            c['dtype'] = rc.pick_dtype(rs, np.asarray(A))     # bool / uint8 / int storage of the same network
+        out.append(c)
     for n in (5, 6, 7, 8):
         ring = np.zeros((n, n))
         for x in range(n):
